@@ -1258,3 +1258,73 @@ UNITS["v_unknown_merge"] = dict(
              safety_id="C19.unknown_merge.safety"),
     ],
 )
+
+
+# ------------------------------------------------------------------------------------------------
+# C04 / C28: stdlib find: no panic for any offset; the byte search returns the first occurrence at or after the offset
+UNITS["v_find"] = dict(
+    prop=["C04", "C28"], tier="q", prelude=["findfn.rs"], native_witness={"C04": ["stdlib_watchdog"], "C28": ["string_laws"]},
+    fns=[
+        dict(id="find_regex_in_str", file="src/stdlib/find.rs", impl="impl FindFn", name="find_regex_in_str",
+             orig_sig="fn find_regex_in_str(value: &str, regex: &ValueRegex, offset: usize) -> Option<usize>",
+             sig="pub fn find_regex_in_str(value: &Str, regex: &ValueRegex, offset: usize) -> (r: Option<usize>)",
+             desugar=["map"] if False else [],
+             rewrites=[dict(**{"from": r"regex\.find_at\(value, offset\)\.map\(\|found\| found\.start\(\)\)", "regex": True, "optional": True,
+                               "to": "(match regex.find_at(value, offset) { Some(found) => Some(found.start()), None => None })", "why": "Option::map by definition"})],
+             ensures=[("C28.find.regex_from_offset", "a regex match reported by find starts at or after the offset and inside the string", "r is Some ==> offset <= r->Some_0 <= value.b@.len()")],
+             safety_id="C04.find_regex_in_str.safety", safety_text="regex find_at is never called with a start beyond the end of the string (it panics there), for every offset"),
+        dict(id="find_bytes_in_bytes", file="src/stdlib/find.rs", impl="impl FindFn", name="find_bytes_in_bytes",
+             orig_sig="fn find_bytes_in_bytes(value: &Bytes, pattern: &Bytes, offset: usize) -> Option<usize>",
+             sig="pub fn find_bytes_in_bytes(value: &Bytes, pattern: &Bytes, offset: usize) -> (r: Option<usize>)",
+             rewrites=[dict(**{"from": "value[from..to] == *pattern", "count": 1, "to": "slice_eq(value.range(from, to), pattern.as_slice())", "why": "slice indexing through Deref<[u8]> (with its bounds precondition) and [u8] equality"}),
+                       dict(**{"from": "for from in offset..=(value.len() - pattern.len()) {", "count": 1,
+                               "to": "let __end = value.len() - pattern.len();\n        let mut from = offset;\n        while from <= __end\n            invariant __end == value.b@.len() - pattern.b@.len(), value.b@.len() <= isize::MAX, offset <= from, forall|j: int| offset <= j < from ==> !occurs_at(value.b@, pattern.b@, j),\n            decreases __end + 1 - from,\n        {",
+                               "why": "inclusive range loop as a while loop (RangeInclusive iteration), invariant: no occurrence before `from`"}),
+                       dict(**{"from": r"(return Some\(from\);\s*\})(\s*)\}", "regex": True, "count": 1, "to": r"\1\n            from += 1;\2}", "why": "loop counter increment of the desugared range loop"})],
+             ensures=[("C28.find.first_occurrence", "find on a string pattern returns the first position at or after the offset where the pattern occurs, and null exactly when there is none (agrees with substring position)",
+                       "match r { Some(i) => offset <= i && occurs_at(value.b@, pattern.b@, i as int) && forall|j: int| offset <= j < i ==> !occurs_at(value.b@, pattern.b@, j), None => forall|j: int| offset <= j ==> !occurs_at(value.b@, pattern.b@, j) }")],
+             safety_id="C04.find_bytes_in_bytes.safety", safety_text="no underflow in len - pattern.len(), slice bounds in range, termination"),
+    ],
+)
+
+
+# ------------------------------------------------------------------------------------------------
+# C25: from_unix_timestamp / to_unix_timestamp are mutually inverse (all four units, every i64 the first accepts)
+UNITS["v_unix_timestamp"] = dict(
+    prop=["C25"], tier="q", prelude=["unixts.rs"], native_witness={"C25": ["unix_timestamp_roundtrip"]},
+    fns=[
+        dict(id="from_unix_timestamp", file="src/stdlib/from_unix_timestamp.rs", impl=None, name="from_unix_timestamp",
+             orig_sig="fn from_unix_timestamp(value: Value, unit: Unit) -> Resolved",
+             sig="pub fn from_unix_timestamp(value: Value, unit: Unit) -> (r: Resolved)",
+             rewrites=[dict(**{"from": "use Value::Integer;", "count": 1, "to": "", "why": "local use of the variant name"}),
+                       dict(**{"from": "Integer(v) =>", "count": 1, "to": "Value::Integer(v) =>", "why": "see above"}),
+                       dict(**{"from": r"\bUtc\.", "regex": True, "to": "utc().", "why": "chrono::Utc unit struct"}),
+                       dict(**{"from": r"Some\(time\) => time\.into\(\),", "regex": True, "to": "Some(time) => time.into_value(),", "why": "From<DateTime<Utc>> for Value"}),
+                       dict(**{"from": r"utc\(\)\.timestamp_nanos\(v\)\.into\(\)", "regex": True, "to": "utc().timestamp_nanos(v).into_value()", "why": "From<DateTime<Utc>> for Value"}),
+                       dict(**{"from": r"return Err\(format!\([^;]*?\)\.into\(\)\)", "regex": True, "to": "return Err(err_msg())", "why": "error message text opaque"})],
+             ensures=[("C25.from_unix_timestamp.instant", "from_unix_timestamp(v, unit) is the instant v units after the epoch, or an error",
+                       "r is Ok ==> (value is Integer && r->Ok_0 is Timestamp && r->Ok_0->Timestamp_0.ns == value->Integer_0 * unit_ns(unit) && valid_ts(r->Ok_0))")],
+             safety_id="C25.from_unix_timestamp.safety"),
+        dict(id="to_unix_timestamp", file="src/stdlib/to_unix_timestamp.rs", impl=None, name="to_unix_timestamp",
+             orig_sig="fn to_unix_timestamp(value: Value, unit: Unit) -> Resolved",
+             sig="pub fn to_unix_timestamp(value: Value, unit: Unit) -> (r: Resolved)",
+             requires=["valid_ts(value)"],
+             rewrites=[dict(**{"from": r"None => return Err\(ValueError::OutOfRange\(Kind::timestamp\(\)\)\.into\(\)\),", "regex": True, "optional": True, "to": "None => return Err(ExpressionError::OutOfRange),", "why": "error construction"}),
+                       dict(**{"from": "Ok(time.into())", "count": 1, "to": "Ok(int_value(time))", "why": "From<i64> for Value"})],
+             ensures=[("C25.to_unix_timestamp.floor", "to_unix_timestamp(t, unit) is the floored count of units from the epoch to t (an error only for nanoseconds outside i64)",
+                       "value is Timestamp ==> (match r { Ok(v) => v == Value::Integer(fdiv(value->Timestamp_0.ns, unit_ns(unit)) as i64) && i64::MIN <= fdiv(value->Timestamp_0.ns, unit_ns(unit)) <= i64::MAX, Err(_) => unit is Nanoseconds && !(i64::MIN <= value->Timestamp_0.ns <= i64::MAX) })")],
+             safety_id="C25.to_unix_timestamp.safety"),
+    ],
+    lemmas=[dict(id="C25.unix_timestamp.roundtrip", text="to_unix_timestamp(from_unix_timestamp(v, unit), unit) == v for every i64 v that from_unix_timestamp accepts, in all four units",
+                 sig="pub fn unix_timestamp_roundtrip(v: i64, unit: Unit) -> (r: bool)", ensures="r",
+                 body="""    match from_unix_timestamp(Value::Integer(v), unit) {
+        Ok(t) => {
+            proof {
+                assert(t->Timestamp_0.ns == v * unit_ns(unit));
+                assert(fdiv(v * unit_ns(unit), unit_ns(unit)) == v) by(nonlinear_arith) requires unit_ns(unit) > 0;
+            }
+            match to_unix_timestamp(t, unit) { Ok(Value::Integer(back)) => back == v, _ => false }
+        }
+        Err(_) => true,
+    }""")],
+)
